@@ -633,6 +633,10 @@ def apply_op(fx: Fixture, op, rng=None) -> Step:
                 # `model.raw_x += [...]`: extends in place, then assigns the result back through the property
                 setattr(fx.raw_owner, fx.raw_name, getattr(fx.raw_owner, fx.raw_name).__iadd__(list(real)))
                 fx.raw = getattr(fx.raw_owner, fx.raw_name)
+            elif op.get('iadd') and vd is not None and not vd.name.startswith('x-') and getattr(fx.raw_owner, vd.name, None) is target:
+                # `model.view += [...]` (the statement, not the method): the view extends itself in place and is then assigned
+                # back through its read-only property - list semantics: nothing is raised, the list is extended once
+                setattr(fx.raw_owner, vd.name, getattr(fx.raw_owner, vd.name).__iadd__(list(real)))
             else:
                 target.extend(iter(real))
         elif name == 'clear':
@@ -1038,7 +1042,7 @@ def gen_op(rng, fx: Fixture, ids, allow_errors=True):
         op['vals'] = fresh_vals(1)
     elif name == 'extend':
         op['vals'] = fresh_vals(rng.choice([0, 1, 2, 3]))
-        if vd is None and rng.random() < 0.4:
+        if rng.random() < 0.4:
             op['iadd'] = True
         if vd is None and allow_errors and rng.random() < 0.06:
             op['reuse'] = rng.randrange(0, 8)
